@@ -421,6 +421,6 @@ def exSpec : ExprSpec Ex where
   toks := Ex.toks
   tree := Ex.tree
   wfb := fun e => e.wfb 8
-  stmtb := fun e => firstKindOK (fun k => !identKinds.contains k) e.toks
+  stmtb := fun e => firstKindOK (fun k => !identKinds.contains k && k != Kind.Comment) e.toks
 
 end Gold.C06
